@@ -223,6 +223,129 @@ def c16(tier):
     ck.assumptions += REF_ASSUME
     return ck.finish(floor_events=1000)
 
+from . import regex_check as rxc
+
+def chunks(xs, n):
+    return [xs[i:i + n] for i in range(0, len(xs), n)]
+
+@register('C03')
+def c03(tier):
+    ck = Check('C03', tier)
+    q = tier == 'quick'
+    rnd = random.Random(common.seed() * 31337 + 3)
+    corpus = rxc.corpus()
+    seeded = rxc.gen_patterns(rnd, 40000 if q else 1500000, max_positions=60 if q else 90)
+    jobs = [('C03', c, True, 'clang1') for c in chunks(corpus, 700)] + [('C03', c, False, 'clang1') for c in chunks(seeded, 4000)]
+    merge(ck, common.pmap(rxc.judge_batch, jobs))
+    ct = rxc.gen_patterns(rnd, 64 if q else 1024, max_positions=20) + [x for x in rxc.rr.hand_corpus() if rxc.rr.positions_count(x[0]) <= 40]
+    merge(ck, common.pmap(rxc.judge_ct, [('C03', c, 'clang', common.seed() + i) for i, c in enumerate(chunks(ct, 16))]))
+    ck.cov['rule'] = ('patterns generated from ASTs over every documented construct (plus a fixed corpus: documentation/tests/examples, all ASTs with <= 2 primaries over {a,b}, 600 fixed-seed patterns); '
+                      'the real pattern lexer+grammar+dfa_builder run on each pattern (at run time in harness memory, and during constant evaluation for a sample); the automaton read from memory is '
+                      'compared for language equivalence over all 256 byte values with the reference DFA of the AST, and every difference is replayed through the real matcher; '
+                      'patterns whose position automaton is nondeterministic, or deterministic with nested loops, are keyed to the recorded findings; distinct_nontrivial = distinct patterns whose reference DFA has >= 3 states')
+    ck.assumptions += ['reference regex model lib/vf/ref_regex.py (Glushkov + subset construction), cross-checked against Python re by tools/setup.py',
+                       'the run-time construction in harness memory uses the same code as regex::expr/regex_term (checked on the compile-time sample)']
+    return ck.finish(floor_events=5000)
+
+@register('C17')
+def c17(tier):
+    ck = Check('C17', tier)
+    q = tier == 'quick'
+    rnd = random.Random(common.seed() * 31337 + 17)
+    bad = rxc.malformed(rnd, 12000 if q else 400000)
+    merge(ck, common.pmap(rxc.judge_malformed, [(c, 'clang1') for c in chunks(bad, 3000)]))
+    alpha = b'ab()[]{}*+?|\\x-^.09\x00\xff \x7f"'
+    rb = [bytes(rnd.choice(alpha) for _ in range(rnd.randint(0, 14))) for _ in range(20000 if q else 600000)]
+    merge(ck, common.pmap(rxc.judge_random_bytes, [(c, 'clang1') for c in chunks(rb, 5000)]))
+    merge(ck, common.pmap(ctor_reject_worker, ctor_reject_cases(rnd, 24 if q else 160)))
+    ck.cov['rule'] = ('(a) strings broken in exactly the ways the property names (unbalanced group, unterminated set, dangling/empty repetition, empty alternative, leading quantifier, raw non-printable byte) '
+                      'are fed to the real pattern parser, dfa_builder and dfa_size_analyzer through a bounds-monitoring buffer: all must be refused and nothing outside the pattern may be read; '
+                      '(b) arbitrary strings over the meta-characters: memory safety of the scan only (no verdict on acceptance); (c) generated programs with regex_term<bad>, regex::expr<bad>, rules naming '
+                      'undeclared terms/nonterminals, empty nonterminal names: must be rejected by the constant evaluator of g++ and clang++ and throw when constructed at run time; '
+                      'distinct_nontrivial = distinct malformed strings / programs')
+    ck.assumptions += ['must-reject classes are exactly those named by the property; other strings give no verdict', 'a read of the terminator position is counted (terminator_position_reads) but is in bounds for the cstring_buffer the library uses for patterns']
+    return ck.finish(floor_events=1000)
+
+CTOR_TMPL = '''#include "vf_harness.hpp"
+using namespace ctpg; using namespace ctpg::buffers;
+%(decl)s
+int main() {
+#ifdef VF_RUNTIME
+  try { %(rt)s std::printf("CONSTRUCTED\\n"); } catch (const std::exception& e) { std::printf("THREW %%s\\n", e.what()); }
+#endif
+  return 0; }
+'''
+
+def ctor_reject_cases(rnd, n):
+    """programs that must not produce a parser/matcher: each has a compile-time form (must not be a constant expression)
+    and, where the API allows it, a run-time form (must throw)"""
+    cases = []
+    badpats = rxc.malformed(rnd, n)
+    for i, (t, c) in enumerate(badpats[: n // 2]):
+        kind = rnd.choice(['expr', 'term'])
+        decl = 'constexpr char pat[] = %s;\n' % rxc.cxx_str(t)
+        if kind == 'expr': decl += 'constexpr regex::expr<pat> r;\n'
+        else: decl += 'constexpr nterm<int> S("S"); constexpr regex_term<pat> t0("t0");\nconstexpr parser p(S, terms(t0), nterms(S), rules(S(t0) >= [](auto){ return 1; }));\n'
+        cases.append({'name': 'pattern:%s:%s' % (kind, c), 'decl': decl, 'rt': None, 'detail': t.hex(),
+                      'good': decl.replace(rxc.cxx_str(t), '"ab*"')})
+    shapes = [
+        ('undeclared-term', "constexpr nterm<int> S(\"S\");\n#define VF_P parser p(S, terms('a'), nterms(S), rules(S('a', 'b') >= [](auto, auto){ return 1; }))", "constexpr nterm<int> S(\"S\");\n#define VF_P parser p(S, terms('a', 'b'), nterms(S), rules(S('a', 'b') >= [](auto, auto){ return 1; }))"),
+        ('undeclared-string-term', "constexpr nterm<int> S(\"S\");\n#define VF_P parser p(S, terms(\"ab\"), nterms(S), rules(S(\"ab\", \"abc\") >= [](auto, auto){ return 1; }))", "constexpr nterm<int> S(\"S\");\n#define VF_P parser p(S, terms(\"ab\", \"abc\"), nterms(S), rules(S(\"ab\", \"abc\") >= [](auto, auto){ return 1; }))"),
+        ('undeclared-nterm-rhs', "constexpr nterm<int> S(\"S\"); constexpr nterm<int> T(\"T\");\n#define VF_P parser p(S, terms('a'), nterms(S), rules(S('a') >= [](auto){ return 1; }, S(T, 'a') >= [](int, auto){ return 1; }))", "constexpr nterm<int> S(\"S\"); constexpr nterm<int> T(\"T\");\n#define VF_P parser p(S, terms('a'), nterms(S, T), rules(S('a') >= [](auto){ return 1; }, S(T, 'a') >= [](int, auto){ return 1; }, T('a') >= [](auto){ return 2; }))"),
+        ('undeclared-nterm-lhs', "constexpr nterm<int> S(\"S\"); constexpr nterm<int> T(\"T\");\n#define VF_P parser p(S, terms('a'), nterms(S), rules(S('a') >= [](auto){ return 1; }, T('a') >= [](auto){ return 1; }))", "constexpr nterm<int> S(\"S\"); constexpr nterm<int> T(\"T\");\n#define VF_P parser p(S, terms('a'), nterms(S, T), rules(S('a') >= [](auto){ return 1; }, T('a') >= [](auto){ return 1; }))"),
+        ('undeclared-root', "constexpr nterm<int> S(\"S\"); constexpr nterm<int> T(\"T\");\n#define VF_P parser p(T, terms('a'), nterms(S), rules(S('a') >= [](auto){ return 1; }))", "constexpr nterm<int> S(\"S\"); constexpr nterm<int> T(\"T\");\n#define VF_P parser p(T, terms('a'), nterms(S, T), rules(S('a') >= [](auto){ return 1; }, T(S) >= [](int x){ return x; }))"),
+        ('undeclared-regex-term', "constexpr char pa[] = \"[0-9]+\"; constexpr char pb[] = \"[a-z]+\"; constexpr regex_term<pa> ta(\"ta\"); constexpr regex_term<pb> tb(\"tb\"); constexpr nterm<int> S(\"S\");\n#define VF_P parser p(S, terms(ta), nterms(S), rules(S(ta, tb) >= [](auto, auto){ return 1; }))", "constexpr char pa[] = \"[0-9]+\"; constexpr char pb[] = \"[a-z]+\"; constexpr regex_term<pa> ta(\"ta\"); constexpr regex_term<pb> tb(\"tb\"); constexpr nterm<int> S(\"S\");\n#define VF_P parser p(S, terms(ta, tb), nterms(S), rules(S(ta, tb) >= [](auto, auto){ return 1; }))"),
+        ('empty-nterm-name', "#define VF_P nterm<int> S(\"\")", "#define VF_P nterm<int> S(\"S\")"),
+    ]
+    k = 0
+    while len(cases) < n:
+        name, bad, good = shapes[k % len(shapes)]; k += 1
+        # vary the symbols a little so that cases are distinct programs
+        a = rnd.choice('acdefgh'); b = rnd.choice('bijklmn')
+        bad2 = bad.replace("'a'", "'%s'" % a).replace("'b'", "'%s'" % b); good2 = good.replace("'a'", "'%s'" % a).replace("'b'", "'%s'" % b)
+        cases.append({'name': 'grammar:' + name, 'decl': bad2 + '\nconstexpr VF_P;\n', 'rt': bad2 + '\n', 'detail': '%s %s' % (a, b), 'good': good2 + '\nconstexpr VF_P;\n', 'good_rt': good2 + '\n'})
+        if k > 10 * n: break
+    return cases
+
+def ctor_reject_worker(case):
+    out = {'counts': collections.Counter(), 'viol': [], 'samples': [], 'distinct': [], 'incon': []}
+    C = out['counts']
+    try:
+        C['evaluations'] += 1; C['programs_' + case['name'].split(':')[0]] += 1
+        out['distinct'].append(common.sha(case['decl'])[:12])
+        key = 'input:' + common.sha(case['decl'])[:16]
+        for fl in ('gsyntax', 'csyntax'):
+            # positive control: the well-formed sibling must compile
+            try:
+                common.build(CTOR_TMPL % {'decl': case['good'], 'rt': ''}, fl, name='ctor_good')
+            except common.BuildError as e:
+                out['incon'].append('control program for %s does not compile with %s: %s' % (case['name'], fl, e.diag[:300])); continue
+            try:
+                common.build(CTOR_TMPL % {'decl': case['decl'], 'rt': ''}, fl, name='ctor_bad')
+                out['viol'].append(([key], '%s (%s): construction during constant evaluation was accepted by %s' % (case['name'], case['detail'], fl), {'program': case['decl']}))
+            except common.BuildError as e:
+                C['compile_time_rejections_observed'] += 1
+                if 'constant expression' not in e.diag and 'constexpr' not in e.diag:
+                    out['incon'].append('%s rejected by %s for an unexpected reason: %s' % (case['name'], fl, e.diag[:300]))
+        if case.get('rt'):
+            src = CTOR_TMPL % {'decl': case['rt'], 'rt': 'VF_P; (void)sizeof(p);' if 'parser p' in case['rt'] else 'VF_P; (void)S;'}
+            exe = common.build(src, 'clang', extra=['-DVF_RUNTIME'], name='ctor_rt')
+            rc, o, e, to = common.run(exe, timeout=60)
+            C['run_time_constructions_observed'] += 1
+            if b'THREW' not in o:
+                out['viol'].append(([key], '%s (%s): construction at run time did not throw (output %r rc=%s)' % (case['name'], case['detail'], o[:100], rc), {'program': case['rt']}))
+            srcg = CTOR_TMPL % {'decl': case['good_rt'], 'rt': 'VF_P; (void)sizeof(p);' if 'parser p' in case['good_rt'] else 'VF_P; (void)S;'}
+            exe = common.build(srcg, 'clang', extra=['-DVF_RUNTIME'], name='ctor_rt_good')
+            rc, o, e, to = common.run(exe, timeout=60)
+            if b'CONSTRUCTED' not in o: out['incon'].append('run-time control for %s did not construct: %r' % (case['name'], o[:100]))
+        out['samples'].append({'case': case['name'], 'program': case['decl'][:300]})
+    except common.BuildError as e:
+        out['incon'].append('ctor case %s: harness build failed: %s' % (case['name'], e.diag[:400]))
+    except Exception:
+        import traceback
+        out['incon'].append('ctor worker: ' + traceback.format_exc()[-800:])
+    return out
+
 def replay(prop, path):
     rep = json.load(open(path))
     print('replay of', path, '- re-running the full check for', prop, 'with seed', rep.get('seed'))
